@@ -1,14 +1,19 @@
 """C15 -- cancellation stops execution promptly and is otherwise invisible.
 
-spec/Cancel.tla (shared poll counter, stack of execution contexts, blocked-in-child states, delivered output;
-lock-step context-free machine), MC_Cancel (since <= CheckEvery, ends with the context's error or by itself, right
-error identity, everything printed is delivered, an uncancelled context is invisible, cancelled ~> returned),
-Gen_Cancel (every situation in which the context can become done, exported with what the rest of the run must
-satisfy), Trace_Cancel (random deeper scenarios recorded through the instruction hook, checked against the same
-property operators with the bound of the real code).
+spec/Cancel.tla (shared poll counter, stack of execution contexts, blocked-in-child states and how a child that ends
+by itself ends -- status 0 / another status / killed by a signal / the wait itself fails --, output printed and still
+pending per destination -- unbuffered or buffered standard output, file, command --; lock-step context-free machine),
+MC_Cancel (since <= CheckEvery, ends with the context's error or by itself, right error identity, everything printed is
+delivered at every destination, an uncancelled context is invisible including what system()/close() hand to the
+program, cancelled ~> returned), Gen_Cancel (every situation in which the context can become done, exported with what
+the rest of the run must satisfy; every uncancelled step), Trace_Cancel (random deeper scenarios recorded through the
+instruction hook, checked against the same property operators with the bound of the real code).
 """
-import copy, json
+import copy, json, os
 from vlib import MachineryError
+
+ALL_PRINTS = '{"pr_direct", "pr_buffered", "pr_file", "pr_cmd"}'
+ALL_OUTCOMES = '{"zero", "nonzero", "signal", "waitfail"}'
 
 
 def corrupt(case, rnd):
@@ -19,7 +24,8 @@ def corrupt(case, rnd):
             c['expect']['maxsince'] = 0            # nothing may run after the cancellation: the real run does run on
             return c
         if rnd.random() < 0.5 and c['started']:
-            c['expect']['mindelivered'] += 2       # more output than was printed
+            used = [d for d, n in c['printed'].items() if n] or ['direct', 'file']
+            c['expect']['mindelivered'][rnd.choice(used)] += 2       # more output than was printed
             return c
         c['expect']['errid'] = 'deadline' if c['expect']['errid'] == 'cancel' else 'cancel'
         return c
@@ -40,12 +46,44 @@ def corrupt_event(ev, rnd):
     return None
 
 
-def dedupe(path):
+def keep(sc, quick):
+    """Which exported scenarios are replayed.  Dropped in both tiers: steps that only write a buffer out (the state
+    differs, the program does not); buffered standard output together with a child that shares Config.Output (a
+    child's copier and the interpreter writing to one bufio.Writer is C13's matter).  In the quick tier the cross
+    products are thinned: children with an ending (outcome) only in programs that print nothing, a failing wait
+    (0.25 s of real time each, twice) only in the 12 shallowest nestings, and the blocked-in-a-child situations not
+    with output that has already left its buffer."""
+    printed = [d for d, n in sc['printed'].items() if n]
+    if sc['fam'] == 'nocancel':
+        if sc['waited'] == 'none' and sc['outcome'] != 'none':
+            return False
+        if 'buffered' in printed and (sc['waiting'] != 'none' or sc['waited'] != 'none'):
+            return False
+        if quick:
+            if sc['outcome'] != 'none' and printed:
+                return False
+            if sc['outcome'] == 'fail' and len(sc['kinds']) > 2:
+                return False
+            if sc['waited'] != 'none' and sc['outcome'] == 'none' and printed:
+                return False
+        return True
+    if sc['fam'] == 'cancel':
+        if sc['waiting'] != 'none':
+            if 'buffered' in printed:
+                return False
+            if quick and printed and printed != ['direct'] and not any(sc['pending'].values()):
+                return False
+        return True
+    return True
+
+
+def dedupe(path, quick):
     seen, out = set(), []
     for line in open(path):
         if line not in seen:
             seen.add(line)
-            out.append(line)
+            if keep(json.loads(line), quick):
+                out.append(line)
     with open(path, 'w') as f:
         f.writelines(out)
     return len(out)
@@ -55,10 +93,14 @@ def run(ctx):
     q = ctx.quick
     ctx.rule = ('a case is one situation in which the context becomes done -- nesting of execution contexts (BEGIN / '
                 'pattern / action / END, then function bodies and for-in bodies), blocked in system() / cmd|getline / '
-                'close of an output pipe, position of the poll counter (just after a poll, middle, just before), pending '
-                'output, cancelled vs deadline, before the first instruction -- exported by TLC from Gen_Cancel and '
+                'close of an output pipe, position of the poll counter (just after a poll, middle, just before), output '
+                'printed before that point -- to unbuffered standard output, to a bufio.Writer given as Config.Output, to a '
+                'file, to a command; fewer than a buffer-full still pending, or more than a buffer-full with the tail '
+                'pending --, cancelled vs deadline, before the first instruction -- exported by TLC from Gen_Cancel and '
                 'rendered to an AWK program of that shape whose Go function vcancel() makes the context done at the chosen '
-                'instruction; or one uncancelled ExecuteContext program state (must equal Execute); or one of 24 ordinary '
+                'instruction; or one uncancelled ExecuteContext step (must equal Execute in standard output, redirected '
+                'output, error stream, status and error), among them system() and close() of a command that exits 0, exits '
+                '3, is killed by a signal, or whose wait fails; or one of 24 ordinary '
                 'programs; or one random deeper scenario recorded through the instruction hook; distinct by content; all '
                 'are non-trivial (each exercises the poll or the never-cancelled path)')
     ctx.assumptions += [
@@ -73,14 +115,46 @@ def run(ctx):
         'after a killed child the bound is applied to calls of a Go function in the loop body (each at least one instruction)',
         'error texts are not compared; only nil / context.Canceled / context.DeadlineExceeded / other',
         'long single instructions (a huge regex match, a big sort) are outside the statement, which counts interpreter steps',
+        '"delivered": when the call has returned, the lines printed before the cancellation point are in Config.Output '
+        '(when that is a *bufio.Writer: in the writer underneath it -- the interpreter flushes a Config.Output that has a '
+        'Flush method when a call returns, as it must for its default, a buffered os.Stdout; the harness does not flush), '
+        'in the file of print > "f", or have been handed to the command of print | "cmd"',
+        'a command destination: the context kills the shell the interpreter started, so the observable reader is a '
+        'process the shell forked into the background (`exec 3<&0; (echo up > mark; exec cat <&3 > file) &`); the program '
+        'waits (Go function vwait) until the marker exists before it goes on towards the cancellation; after the call '
+        'the harness waits up to 20 s for the file to hold the lines (2 s once one case has waited in vain)',
+        'one printed unit of the model is 3 lines while it is pending, and 12000 lines (78 KB, buffers are 64 KiB) when '
+        'the model says the buffer has been written out before the cancellation (BufferFull): all of them must arrive',
+        'children that end by themselves under a never-cancelled context: `exit 0`, `exit 3`, `kill -9 $$`, and '
+        '`sleep 5 &` (the shell exits at once, the background sleep keeps the inherited output open for 5 s, 20 times '
+        'os/exec\'s 250 ms WaitDelay, so Wait fails with ErrWaitDelay); what system()/close() return, standard output, '
+        'the error stream (texts of the two real runs against each other, not against a specified text), status and error '
+        'are compared between Execute and ExecuteContext; if under Execute the child does not end the way the scenario '
+        'says (value printed), the case is skipped; a difference counts only if three consecutive pairs of runs show it',
+        'buffered standard output is not combined with a child that shares Config.Output (the known C13 matter of a '
+        'child\'s copier and the interpreter writing to one bufio.Writer)',
     ]
     ctx.build()
     # 1. the model
-    mc = ctx.cfg('MC_Cancel', constants=dict(MaxDepth=2, MaxPrint=1, MaxRecords=1) if q else dict(MaxDepth=3, MaxPrint=2, MaxRecords=2))
-    ctx.tlc('MC_Cancel', mc, timeout=1500, heap='6g')
-    if not q:
-        # the model must be able to fail: each of the three design decisions removed violates an invariant
-        for const, inv in (('SharedCounter', 'Prompt'), ('PreferCtxErr', 'EndsRight'), ('FlushOnCtxErr', 'Delivered')):
+    if os.environ.get('VERIF_SKIP_MODEL'):      # development aid for runs against changed trees: the model does not depend on the code
+        ctx.notes.append('model run skipped (VERIF_SKIP_MODEL)')
+    elif q:
+        # safety over every print destination and a failing wait; liveness (an order of magnitude dearer) over the
+        # machine with one destination: Stops is about polling, not about where output goes
+        mc = ctx.cfg('MC_Cancel', constants=dict(MaxDepth=2, MaxPrint=1, MaxRecords=1, Outcomes='{"zero", "waitfail"}'), drop=['PROPERTIES'])
+        ctx.tlc('MC_Cancel', mc, timeout=1500, heap='6g', label='MC_Cancel (invariants)')
+        lv = ctx.cfg('MC_Cancel', name='MC_Cancel_live', constants=dict(MaxDepth=2, MaxPrint=1, MaxRecords=1, Outcomes='{"zero"}',
+                                                                       PrintKinds='{"pr_direct"}'))
+        ctx.tlc('MC_Cancel', lv, timeout=1500, heap='6g', label='MC_Cancel (invariants + liveness)')
+    else:
+        mc = ctx.cfg('MC_Cancel', constants=dict(MaxDepth=3, MaxPrint=2, MaxRecords=2), drop=['PROPERTIES'])
+        ctx.tlc('MC_Cancel', mc, timeout=3000, heap='8g', label='MC_Cancel (invariants)')
+        lv = ctx.cfg('MC_Cancel', name='MC_Cancel_live', constants=dict(MaxDepth=3, MaxPrint=1, MaxRecords=2, Outcomes='{"zero", "waitfail"}',
+                                                                       PrintKinds='{"pr_direct", "pr_file"}'))
+        ctx.tlc('MC_Cancel', lv, timeout=3000, heap='8g', label='MC_Cancel (invariants + liveness)')
+        # the model must be able to fail: each of the four design decisions removed violates an invariant
+        for const, inv in (('SharedCounter', 'Prompt'), ('PreferCtxErr', 'EndsRight'), ('FlushOnCtxErr', 'Delivered'),
+                           ('WaitErrChecksDone', 'Invisible')):
             c = ctx.cfg('MC_Cancel', name=f'MC_Cancel_no_{const}', constants={const: 'FALSE', 'MaxDepth': 2, 'MaxPrint': 1, 'MaxRecords': 1},
                         drop=['PROPERTIES'])
             r = ctx.tlc('MC_Cancel', c, timeout=900, heap='4g', allow_fail=True, label=f'MC_Cancel with {const}=FALSE')
@@ -88,17 +162,38 @@ def run(ctx):
             if r['ok'] or f'Invariant {inv} is violated' not in log:
                 raise MachineryError(f'model lost its teeth: {const}=FALSE no longer violates {inv}')
         ctx.notes.append('model sanity: a per-execute poll counter violates Prompt, reporting the secondary error violates '
-                         'EndsRight, not flushing on the context error violates Delivered (TLC counterexamples found)')
+                         'EndsRight, not flushing on the context error violates Delivered, taking every failed wait under '
+                         'ExecuteContext for the context\'s doing violates Invisible (TLC counterexamples found)')
     # 2. spec -> code
     gen = ctx.cfg('Gen_Cancel', constants=dict(MaxDepth=3 if q else 4))
     ctx.tlc('Gen_Cancel', gen, capture='cases.ndjson', timeout=900, heap='4g')
-    n = dedupe(ctx.path('cases.ndjson'))
+    n = dedupe(ctx.path('cases.ndjson'), q)
     with open(ctx.path('cases.ndjson'), 'a') as f:
         for i in range(24):
             f.write(json.dumps(dict(fam='ordinary', i=i), separators=(',', ':')) + '\n')
-    ctx.log(f'{n} distinct scenarios + 24 ordinary programs')
+    ctx.log(f'{n} distinct scenarios kept + 24 ordinary programs')
+    classes = {}
+    for line in open(ctx.path('cases.ndjson')):
+        sc = json.loads(line)
+        if sc['fam'] == 'cancel':
+            for d, k in sc['printed'].items():
+                if k:
+                    key = f"cancel/{d}/{'pending' if sc['pending'][d] else 'written-out'}"
+                    classes[key] = classes.get(key, 0) + 1
+        elif sc['fam'] == 'nocancel' and sc['outcome'] != 'none':
+            key = f"nocancel/{sc['waited']}/{sc['outcome']}"
+            classes[key] = classes.get(key, 0) + 1
+    ctx.cov['scenario_classes'] = classes
+    need = [f'cancel/{d}/pending' for d in ('buffered', 'file', 'cmd')] + ['cancel/direct/written-out'] + \
+           [f'nocancel/{w}/{o}' for w in ('system', 'pipeclose') for o in ('zero', 'status', 'signal', 'fail')]
+    if any(not classes.get(k) for k in need):
+        raise MachineryError(f'Gen_Cancel exported no scenario of some class: {classes}')
     ctx.cov['exhaustive'] = True
     ctx.replay('cases.ndjson', label='gen-cancel', min_cases=300, corrupt=corrupt)
+    ex = ctx.cov.get('replay_extra', {}).get('gen-cancel', {})
+    ctx.log(f'environment-dependent cases: {ex}')
+    if not ex.get('wait_failure_judged') or not ex.get('command_destination_judged'):
+        raise MachineryError(f'no case with a failing wait / a command destination was judged (all skipped?): {ex}')
     bad = [f for f in ctx.failures if f['sig'].startswith('C15-MODEL')]
     if bad:
         raise MachineryError(f"scenario binding broken: {bad[0]['sig']}: {bad[0].get('what')}")
